@@ -112,6 +112,10 @@ def gen_desc(rng, depth, allow_agg, top=True):
     if res[0] == 'agg' and res[1].startswith('union'):
         res = ['prim', 'int']
     ell = bool(args) and rng.chance(0.2)
+    if rng.chance(0.25):
+        # an explicit calling convention (honoured by the backend-constructor route only): the three
+        # ABI numbers libffi accepts here for a prepared cif, any small number for a variadic type
+        return ['func', res, args, ell, rng.choice([2, 3, 4]) if not ell else rng.choice([1, 2, 3, 4, 5])]
     return ['func', res, args, ell]
 
 
@@ -126,7 +130,7 @@ def fix_open_arrays(d, top=True):
     if k == 'ptr':
         return ['ptr', fix_open_arrays(d[1], False)]
     if k == 'func':
-        return ['func', fix_open_arrays(d[1], False), [fix_open_arrays(a, False) for a in d[2]], d[3]]
+        return ['func', fix_open_arrays(d[1], False), [fix_open_arrays(a, False) for a in d[2]], d[3]] + list(d[4:])
     return d
 
 
@@ -211,7 +215,7 @@ class Run(object):
         return n
 
     # ---- building ----
-    def shape_mismatch(self, ct, d):
+    def shape_mismatch(self, ct, d, abis=False):
         """does the ctype that was handed out describe the C type that was asked for?  (one object
         standing for two different C types is the other half of 'same object iff same type')"""
         k = d[0]
@@ -224,13 +228,13 @@ class Run(object):
         if k == 'ptr':
             if ct.kind != 'pointer':
                 return 'a pointer'
-            return self.shape_mismatch(ct.item, d[1])
+            return self.shape_mismatch(ct.item, d[1], abis)
         if k == 'arr':
             if ct.kind != 'array':
                 return 'an array'
             if ct.length != d[2]:
                 return 'an array of length %r (got length %r)' % (d[2], ct.length)
-            return self.shape_mismatch(ct.item, d[1])
+            return self.shape_mismatch(ct.item, d[1], abis)
         if k == 'func':
             if ct.kind != 'function':
                 return 'a function pointer'
@@ -238,15 +242,23 @@ class Run(object):
                 return 'a function of %d arguments' % len(d[2])
             if is_variadic(ct) != bool(d[3]):
                 return 'a %svariadic function' % ('' if d[3] else 'non-')
+            if abis and ct.abi != self.abi_of(d):
+                return 'a function with ABI %d (got ABI %d)' % (self.abi_of(d), ct.abi)
             for a, da in zip(ct.args, d[2]):
-                m = self.shape_mismatch(a, da)
+                m = self.shape_mismatch(a, da, abis)
                 if m:
                     return m
-            return self.shape_mismatch(ct.result, d[1])
+            return self.shape_mismatch(ct.result, d[1], abis)
         return None
 
+    def abi_of(self, d):
+        """ABI number a function desc asks for on the backend-constructor route"""
+        if len(d) > 4 and (d[3] or d[4] in self.check.abis):
+            return d[4]
+        return self.be.FFI_DEFAULT_ABI
+
     def checked(self, ct, d, route):
-        m = self.shape_mismatch(ct, d)
+        m = self.shape_mismatch(ct, d, route == 'backend constructors')
         if m is not None:
             raise Violation('C27.1', 'asked (%s) for %r, got the ctype %r: expected %s -- one ctype object stands '
                             'for two different C types' % (route, render(d), ct.cname, m))
@@ -282,7 +294,10 @@ class Run(object):
                     self.out.probe('function_argument_given_as_array_type')
                 else:
                     args.append(self.build_direct(entry, a))
-            return be.new_function_type(tuple(args), self.build_direct(entry, d[1]), d[3])
+            abi = self.abi_of(d)
+            if abi != be.FFI_DEFAULT_ABI:
+                self.out.probe('function_type_with_non_default_ABI')
+            return be.new_function_type(tuple(args), self.build_direct(entry, d[1]), d[3], abi)
         raise HarnessError('bad desc')
 
     def build(self, how, k, d):
@@ -454,6 +469,15 @@ class C27(core.Check):
         self.cffi = cffi
         self.backend = _cffi_backend
         self.modules = [_verif_c27a, _verif_c27b]
+        # ABI numbers for which this libffi prepares a cif (platform dependent; probed once)
+        self.abis = []
+        bint = _cffi_backend.new_primitive_type('int')
+        for abi in range(0, 8):
+            try:
+                _cffi_backend.new_function_type((bint,), bint, False, abi)
+            except Exception:
+                continue
+            self.abis.append(abi)
 
     def generate(self, rng, idx, tier):
         nffi = rng.randint(1, 4)
